@@ -32,8 +32,8 @@ RH = record("rh", [("h", own(RI)), ("n", U32)])
 VN = variant("vn", [("a", option(U8)), ("b", R1)])
 
 
-def rt(cls, t, tier="quick"):
-    return Func("f-" + cls, [("x", t)], t, cls, tier=tier)
+def rt(cls, t, tier="quick", max_l=None):
+    return Func("f-" + cls, [("x", t)], t, cls, tier=tier, max_l=max_l)
 
 
 def funcs():
@@ -52,7 +52,10 @@ def funcs():
         rt("list-tuple-u8-u32", lst(tup(U8, U32))), rt("list-option-u8", lst(option(U8))),
         rt("list-record-bool-u32", lst(RB), "thorough"), rt("list-char", lst(CHAR), "thorough"),
         rt("string", STRING), rt("option-string", option(STRING)), rt("result-list-u8-u8", result(lst(U8), U8)),
-        rt("list-string", lst(STRING), "thorough"), rt("record-u8-string", RS, "thorough"),
+        # list<string> (nested heap data) is generated but NOT driven: with <= 2 elements of <= 2 bytes CBMC aborts (status 6)
+        # at the 12 GB address-space cap -- stated in outside_claim
+        Func("f-list-string", [("x", lst(STRING))], lst(STRING), "list-string", special="not-driven", tier="thorough"),
+        rt("record-u8-string", RS, "thorough"),
         rt("variant-string-u64", VS, "thorough"), rt("tuple-string-list-u32", tup(STRING, lst(U32)), "thorough"),
         Func("f-params-17", [("a0", U8), ("a1", U64), ("a2", U8), ("a3", U32), ("a4", F32), ("a5", F64), ("a6", U16)] +
              [("a%d" % i, U8) for i in range(7, 17)], tup(U8, U64, U8), "params-17-flat-indirect"),
@@ -65,7 +68,7 @@ def funcs():
         rt("own-exported", own(RE)), rt("own-imported", own(RI)),
         Func("f-borrow-imported", [("x", borrow(RI))], U32, "borrow-imported"),
         Func("f-borrow-exported", [("x", borrow(RE))], U32, "borrow-exported"),
-        rt("option-own-imported", option(own(RI))), rt("list-own-imported", lst(own(RI)), "thorough"),
+        rt("option-own-imported", option(own(RI))), rt("list-own-imported", lst(own(RI)), "thorough", max_l=2),
         rt("record-own-imported-u32", RH, "thorough"),
         Func("f-own-and-borrow", [("x", own(RI)), ("y", borrow(RI))], own(RI), "own-and-borrow-imported", tier="thorough"),
         Func("re-pass", [("x", own(RE))], own(RE), "exported-resource-lifecycle", special="re-pass"),
@@ -124,7 +127,7 @@ def configs(tier, seed):
                 o["merge_structurally_equal_types"] = "true"
             out.append({"name": "%s-%s%s%s" % (own_, "std" if std else "nostd", "-raw" if "raw_strings" in o else "",
                                                "-merge" if "merge_structurally_equal_types" in o else ""),
-                        "opts": o, "std": std, "classes": ALT_CLASSES + ["record-equal-twin", "list-string", "record-u8-string"],
+                        "opts": o, "std": std, "classes": ALT_CLASSES + ["record-equal-twin", "record-u8-string"],
                         "resources": False, "bitflags": not std})
     return out
 
